@@ -65,6 +65,10 @@ mut("c26-cursor", "C26", SU, "        mju_copy(state + adr, ptr, size);\n       
 mut("c26-reset-flag", "C26", IO, "  d->flg_rnepost = 0;\n\n  //------", "\n  //------", "rule=R-COVER-RESET construct=flg_rnepost")
 mut("c26-rename-ok", "C26", SU, None, None, None)   # handled specially: rename `adr` -> `cursor`
 # ---- C31
+mut("c31-rewrite-after-read", "C31", IO, "  bufread((void*)&m->vis, sizeof(mjVisual), buffer_sz, buffer, &ptrbuf);\n",
+    "  bufread((void*)&m->vis, sizeof(mjVisual), buffer_sz, buffer, &ptrbuf);\n  if (!(m->opt.tolerance > 0)) m->opt.tolerance = 1e-8;\n", "rule=IO-NOREWRITE construct=load:opt")
+mut("c31-ok-read-into-local-alias", "C31", IO, "  bufread((void*)&m->opt, sizeof(mjOption), buffer_sz, buffer, &ptrbuf);\n",
+    "  mjOption* optblock = &m->opt;\n  bufread((void*)optblock, sizeof(mjOption), buffer_sz, buffer, &ptrbuf);\n", None)
 mut("c31-drop-write", "C31", IO, "  bufwrite(&m->flg_adhesion, sizeof(mjtBool), buffer_sz, buffer, &ptrbuf);\n", "", "rule=IO-")
 mut("c31-guard-shrink", "C31", IO, "sizeof(mjtBool) * 3 > buffer_sz", "sizeof(mjtBool) * 2 > buffer_sz", "rule=IO-GUARD")
 mut("c31-fatal", "C31", IO, "      return \"Invalid model: unknown equality constraint type.\";", "      mjERROR(\"unknown equality constraint type.\");", "rule=NOFATAL")
